@@ -201,6 +201,38 @@ fn dump_list_raw(ml: &MorphemeList<&JapaneseDictionary>, text: &str) -> serde_js
     serde_json::Value::Array(out)
 }
 
+
+/// identity of a result node for the session model: begin/end in characters and bytes of the normalised text, packed
+fn node_ids(ml: &MorphemeList<&JapaneseDictionary>) -> Vec<u64> {
+    ml.iter().map(|m| { let (bc, ec, bb, eb) = m.verif_node_range(); (bc as u64) | ((ec as u64) << 16) | ((bb as u64) << 32) | ((eb as u64) << 48) }).collect()
+}
+
+fn enc_ids(v: &[u64]) -> String { if v.is_empty() { "-".to_string() } else { join(v.iter(), ",") } }
+
+fn dots(v: &[usize]) -> String { if v.is_empty() { "-".to_string() } else { v.iter().map(|x| x.to_string()).collect::<Vec<_>>().join(".") } }
+
+/// index tables of an input buffer (the content of a list's cell), for the read model
+fn enc_tabs(tag: usize, t: &sudachi::input_text::VerifTables) -> String {
+    format!("{}:{}:{}:{}:{}:{}", tag, hex(t.original.as_bytes()), hex(t.modified.as_bytes()), dots(&t.m2o), dots(&t.mod_c2b), dots(&t.m2o_2))
+}
+
+/// what the RUST LIBRARY reads from every morpheme of a (possibly stale) list: begin_c / end_c / surface, `!` = panic
+fn lib_reads(ml: &MorphemeList<&JapaneseDictionary>) -> String {
+    let n = ml.len();
+    let items: Vec<String> = (0..n).map(|i| lib_read_one(ml, i)).collect();
+    format!("{}[{}]", n, items.join(","))
+}
+
+fn lib_read_one(ml: &MorphemeList<&JapaneseDictionary>, i: usize) -> String {
+    if i >= ml.len() { return "!:!:!".to_string(); }
+    let b = catch(|| ml.get(i).begin_c()).map_or("!".to_string(), |x| x.to_string());
+    let e = catch(|| ml.get(i).end_c()).map_or("!".to_string(), |x| x.to_string());
+    let sf = catch(|| hex(ml.get(i).surface().as_bytes())).unwrap_or("!".to_string());
+    format!("{}:{}:{}", b, e, sf)
+}
+
+fn mode_num(m: Mode) -> usize { match m { Mode::C => 0, Mode::A => 1, Mode::B => 2 } }
+
 /// one Python session: a script of calls, the library's expected answers, the comparison
 fn py_session(run: &mut Run, idx: usize, rng: &mut Rng, w: &World) {
     use sudachi::dic::subset::InfoSubset;
@@ -210,19 +242,29 @@ fn py_session(run: &mut Run, idx: usize, rng: &mut Rng, w: &World) {
     let mut calls: Vec<serde_json::Value> = vec![];
     let mut expect: Vec<Option<serde_json::Value>> = vec![]; // None = only "no crash" is required
     let mut lists: Vec<(MorphemeList<&JapaneseDictionary>, String)> = vec![];
-    // lists created by split share the parent's input buffer; reusing one of them as `out=` swaps that buffer
-    // under the others, whose morphemes then point into a different text ("stale": only no-crash is required)
+    // IN-PROCESS MIRROR: `lists` are real `MorphemeList`s on which every call is repeated through the Rust API, so they
+    // share input cells exactly as Python's lists do and the library's own answer for every list - stale ones included -
+    // is the oracle.  SIMULATION (cross-check of the Lean session model only): `group` = which lists share a cell,
+    // `stale` = the list's morphemes were made for a text its cell no longer holds.
     let mut group: Vec<usize> = vec![];
     let mut stale: Vec<bool> = vec![];
     let mut next_group = 0usize;
-    // a list produced from a stale parent may or may not have been re-pointed to the parent's buffer
-    let mut alt_group: Vec<Option<usize>> = vec![];
     let mut kept = 0usize;
+    // the session as the Lean model replays it: one entry per state-changing call, the tables of every cell content
+    let mut enc: Vec<String> = vec![];
+    let mut enc_of_call: Vec<Option<usize>> = vec![];
+    let mut tabs: Vec<String> = vec![];
+    let mut keeps: Vec<String> = vec![];
+    let mut kept_objs: Vec<(usize, usize)> = vec![];             // (list, index) of the Morpheme objects Python keeps
+    let mut snaps: Vec<(Vec<usize>, Vec<bool>, Vec<String>, Vec<String>)> = vec![];   // after every encoded call
     // modelled glue calls: (call number, function, payload for the model); the implementation's answer is read off the
     // Python result of that call afterwards
     let mut glue: Vec<(usize, &'static str, String)> = vec![];
     let field_names = ["surface", "pos", "pos_id", "normalized_form", "dictionary_form", "reading_form", "word_structure", "split_a", "split_b", "synonym_group_id"];
     for _ in 0..ncalls {
+        let mut this_enc: Option<String> = None;
+        'it: {
+        // (kinds: 0-4 tokenize, 5-7 split, 8 lookup, 9 stale read, 10-13 glue shapes)
         let kind = rng.below(14);
         if kind >= 10 {
             let fresh: Vec<usize> = (0..lists.len()).filter(|&j| !stale[j]).collect();
@@ -257,18 +299,22 @@ fn py_session(run: &mut Run, idx: usize, rng: &mut Rng, w: &World) {
                     tok.set_subset(InfoSubset::from_bits_truncate(bits));
                     tok.reset().push_str(&text);
                     if tok.do_tokenize().is_ok() {
+                        tabs.push(enc_tabs(enc.len(), &tok.verif_input().verif_tables()));
                         let mut ml = MorphemeList::empty(dic);
                         ml.collect_results(&mut tok).unwrap();
                         let eff = ml.subset().bits();
                         let d = dump_list(&ml, &text);
                         glue.last_mut().unwrap().2.push_str(&format!(" #eff={} #dump={}", eff, hex(d.to_string().as_bytes())));
-                        lists.push((ml, text.clone())); group.push(next_group); next_group += 1; stale.push(false); alt_group.push(None);
+                        // for the session model: a tokenize call with a mode override into a new list (the second tokenizer's
+                        // buffer plays no role for the lists)
+                        this_enc = Some(format!("T@{}@-@{}@{}", mode_num(m), text.len(), enc_ids(&node_ids(&ml))));
+                        lists.push((ml, text.clone())); group.push(next_group); next_group += 1; stale.push(false);
                     } else {
                         glue.last_mut().unwrap().2.push_str(" #liberr=1");
                     }
                 }
                 run.bump("python-create-with-fields");
-                continue;
+                break 'it;
             }
             let l = *rng.pick(&fresh);
             let n = lists[l].0.len();
@@ -280,19 +326,21 @@ fn py_session(run: &mut Run, idx: usize, rng: &mut Rng, w: &World) {
                 let mut scratch = lists[l].0.empty_clone();
                 let splitted = lists[l].0.split_into(mode, index, &mut scratch).unwrap_or(false);
                 let nsplits = if splitted { scratch.len() } else { 0 };
+                let unit_ids = node_ids(&scratch);
                 let (out_s, mode_ok) = match variant { 0 => ("own", true), 1 => ("none", false), _ => ("none", true) };
                 calls.push(serde_json::json!({"op": "splitx", "list": l, "index": index, "mode": if mode_ok { mode_str(mode) } else { "X" },
                     "out": if variant == 0 { Some("own") } else { None }, "add_single": serde_json::Value::Null}));
                 expect.push(None);
                 glue.push((calls.len() - 1, "split", format!("f=split modeok={} out={} add=- indexok=1 nsplits={} stale=0", mode_ok as u8, out_s, nsplits)));
+                this_enc = Some(format!("S@{}@{}@{}{}@{}@-@{}@0", l, index, mode_ok as u8, mode_num(mode), if variant == 0 { l.to_string() } else { "-".to_string() }, enc_ids(&unit_ids)));
                 if variant == 2 {
                     // succeeds: Python appends the result; add_single defaults to True in the binding
                     if !splitted { lists[l].0.copy_slice(index, index + 1, &mut scratch); }
                     let text = lists[l].1.clone();
-                    lists.push((scratch, text)); group.push(group[l]); stale.push(false); alt_group.push(None);
+                    lists.push((scratch, text)); group.push(group[l]); stale.push(stale[l]);
                 }
                 run.bump("python-split-argument-shapes");
-                continue;
+                break 'it;
             }
             // ---- MorphemeList.__getitem__ / iteration ----
             let arg: serde_json::Value = match rng.below(8) {
@@ -305,12 +353,16 @@ fn py_session(run: &mut Run, idx: usize, rng: &mut Rng, w: &World) {
             expect.push(None);
             glue.push((calls.len() - 1, "getitem", format!("f=getitem len={} arg={}", n, arg.as_str().map_or(arg.to_string(), |s| s.to_string()))));
             run.bump("python-getitem");
-            continue;
+            break 'it;
         }
         if kind < 5 || lists.is_empty() {
             // one call in ten is rejected by the library (input longer than 49149 bytes): the binding must turn that
-            // into an exception and leave the tokenizer as it was (mode override restored)
-            let text = if rng.chance(1, 8) { String::new() } else if rng.chance(1, 10) { "あ".repeat(16400 + rng.below(50)) } else { gen_text(rng, w, 10) };
+            // into an exception and leave the tokenizer as it was (mode override restored); texts at the limit itself
+            // (49149 bytes accepted, 49150 rejected) are directed shapes
+            let text = if rng.chance(1, 8) { String::new() } else if rng.chance(1, 10) {
+                // (a 16 383-morpheme ACCEPTED text is left to C10/C03: every later state of the session would carry its reads)
+                match rng.below(4) { 0 => format!("{}a", "あ".repeat(16383)), 1 => "あ".repeat(300 + rng.below(300)), _ => "あ".repeat(16400 + rng.below(50)) }
+            } else { gen_text(rng, w, 10) };
             let ov = if rng.chance(1, 3) { Some(mode_of(rng.below(3))) } else { None };
             let out = if !lists.is_empty() && rng.chance(1, 3) { Some(rng.below(lists.len())) } else { None };
             let keep = rng.chance(1, 4);
@@ -319,24 +371,29 @@ fn py_session(run: &mut Run, idx: usize, rng: &mut Rng, w: &World) {
             tok.reset().push_str(&text);
             let ok = tok.do_tokenize().is_ok();
             calls.push(serde_json::json!({"op": "tokenize", "text": text, "mode": ov.map(mode_str), "out": out, "keep": keep}));
+            run.bump(if text.len() == 49150 { "python-tokenize:rejected-at-limit+1" } else if text.len() > 49149 { "python-tokenize:rejected" } else if text.len() > 800 { "python-tokenize:long" } else if text.is_empty() { "python-tokenize:empty" } else { "python-tokenize:plain" });
+            if out.is_some() { run.bump("python-tokenize-with-out"); }
+            if let Some(i) = out { if (0..lists.len()).any(|j| j != i && group[j] == group[i]) { run.bump("python-tokenize-into-shared-cell"); } if stale[i] { run.bump("python-tokenize-into-stale-list"); } }
             if !ok {
+                this_enc = Some(format!("T@{}@{}@{}@-", ov.map_or("-".to_string(), |m| mode_num(m).to_string()), out.map_or("-".to_string(), |o| o.to_string()), text.len()));
                 expect.push(Some(serde_json::json!({"err": true, "mode": mode_str(create_mode)})));
-                continue;
+                break 'it;
             }
-            if let Some(i) = out { if stale[i] { /* reusing a stale list is fine: it is overwritten */ } }
+            if text.len() < 2000 { tabs.push(enc_tabs(enc.len(), &tok.verif_input().verif_tables())); }
             let mut ml = match out { Some(i) => std::mem::replace(&mut lists[i].0, MorphemeList::empty(dic)), None => MorphemeList::empty(dic) };
             ml.collect_results(&mut tok).unwrap();
             let d = dump_list(&ml, &text);
             let n = ml.len();
-            if keep && n > 0 { kept += 1; }
+            this_enc = Some(format!("T@{}@{}@{}@{}", ov.map_or("-".to_string(), |m| mode_num(m).to_string()), out.map_or("-".to_string(), |o| o.to_string()), text.len(), enc_ids(&node_ids(&ml))));
             match out {
                 Some(i) => {
                     lists[i] = (ml, text.clone());
-                    for j in 0..lists.len() { if j != i && (group[j] == group[i] || Some(group[j]) == alt_group[i]) { stale[j] = true; } }
+                    for j in 0..lists.len() { if j != i && group[j] == group[i] { stale[j] = true; } }
                     stale[i] = false;
                 }
-                None => { lists.push((ml, text.clone())); group.push(next_group); next_group += 1; stale.push(false); alt_group.push(None); }
+                None => { lists.push((ml, text.clone())); group.push(next_group); next_group += 1; stale.push(false); }
             }
+            if keep && n > 0 { kept += 1; keeps.push(format!("{}:{}", enc.len(), n - 1)); kept_objs.push((out.unwrap_or(lists.len() - 1), n - 1)); }
             {
                 let ml = &lists[out.unwrap_or(lists.len() - 1)].0;
                 if text.len() < 400 {
@@ -349,73 +406,107 @@ fn py_session(run: &mut Run, idx: usize, rng: &mut Rng, w: &World) {
             }
             expect.push(Some(serde_json::json!({"ok": true, "mode": mode_str(create_mode), "ms": d, "n": n})));
         } else if kind < 8 {
-            let l = rng.below(lists.len());
-            if lists[l].0.len() == 0 && !stale[l] { continue; }
-            if stale[l] && lists[l].0.len() == 0 { continue; }
-            let index = rng.below(lists[l].0.len());
-            let mode = mode_of(rng.below(3));
+            let mut l = rng.below(lists.len());
+            if lists[l].0.len() == 0 { break 'it; }
+            let mut index = rng.below(lists[l].0.len());
+            let mut mode = mode_of(rng.below(3));
+            // two times in three a morpheme that HAS units in the chosen mode is looked for (only then `split_into` re-points
+            // the out list itself; otherwise `copy_slice` or nothing does)
+            if rng.chance(2, 3) {
+                let mut cands: Vec<(usize, usize, Mode)> = vec![];
+                for (li, (ml, _)) in lists.iter().enumerate() {
+                    if stale[li] { continue; }
+                    for ix in 0..ml.len().min(12) { for m in [Mode::A, Mode::B] {
+                        let mut sc = ml.empty_clone();
+                        if catch(|| ml.split_into(m, ix, &mut sc)).map_or(false, |r| r.unwrap_or(false)) { cands.push((li, ix, m)); }
+                    } }
+                }
+                if !cands.is_empty() { let c = *rng.pick(&cands); l = c.0; index = c.1; mode = c.2; run.bump("python-split-of-morpheme-with-units"); }
+            }
             let add_single = rng.chance(1, 2);
-            // `out=`: an unrelated, earlier list is reused for the result in a third of the cases
-            let outl = if rng.chance(1, 3) && lists.len() >= 2 { let o = rng.below(lists.len()); if o != l { Some(o) } else { None } } else { None };
+            // `out=`: another list - unrelated (preferred: a list with a cell of its own), sharing the parent's cell, stale - is
+            // reused for the result in half of the cases
+            let outl = if rng.chance(1, 2) && lists.len() >= 2 {
+                let foreign: Vec<usize> = (0..lists.len()).filter(|&o| o != l && group[o] != group[l]).collect();
+                let o = if !foreign.is_empty() && rng.chance(2, 3) { *rng.pick(&foreign) } else { rng.below(lists.len()) };
+                if o != l { Some(o) } else { None }
+            } else { None };
             calls.push(serde_json::json!({"op": "split", "list": l, "index": index, "mode": mode_str(mode), "add_single": add_single, "out": outl}));
             if outl.is_some() { run.bump("python-split-with-out"); }
-            if stale[l] {
-                // the Python side may raise (a Rust panic surfaces as a catchable PanicException) or return anything
-                match outl {
-                    Some(o) => { stale[o] = true; alt_group[o] = Some(group[l]); }
-                    // `empty_clone` of the stale parent: shares its buffer
-                    None => { lists.push((MorphemeList::empty(dic), String::new())); group.push(group[l]); stale.push(true); alt_group.push(None); }
-                }
-                expect.push(None);
-                run.bump("python-stale-split");
-                continue;
-            }
-            // expected = what the Rust library gives for this morpheme: its declared units, or (add_single) the morpheme itself
-            let mut out = lists[l].0.empty_clone();
-            let splitted = lists[l].0.split_into(mode, index, &mut out).unwrap_or(false);
-            if add_single && !splitted { lists[l].0.copy_slice(index, index + 1, &mut out); }
+            if let Some(o) = outl { if group[o] == group[l] { run.bump("python-split-out-shares-parent-cell"); } }
+            if stale[l] { run.bump("python-stale-split"); }
+            // the call repeated on the mirror through the Rust API (a stale parent may make the unit iterator panic)
+            let mut out = match outl { Some(o) => std::mem::replace(&mut lists[o].0, MorphemeList::empty(dic)), None => lists[l].0.empty_clone() };
+            out.clear();
+            let res = catch(|| lists[l].0.split_into(mode, index, &mut out));
+            let unit_ids = node_ids(&out);
+            let (splitted, unwinds) = match &res { Ok(Ok(b)) => (*b, false), _ => (false, true) };
+            if unwinds { run.bump("python-split-unit-iterator-panics(stale parent)"); }
+            this_enc = Some(format!("S@{}@{}@1{}@{}@{}@{}@{}", l, index, mode_num(mode), outl.map_or("-".to_string(), |o| o.to_string()), add_single as u8, enc_ids(&unit_ids), unwinds as u8));
+            if !unwinds && add_single && !splitted { lists[l].0.copy_slice(index, index + 1, &mut out); }
+            let wrote = unwinds || splitted || add_single;
             let text = lists[l].1.clone();
             let d = dump_list(&out, &text);
             let n = out.len();
             match outl {
                 Some(o) => {
-                    if splitted || (add_single && !splitted) { run.bump("python-split-into-foreign-out"); }
-                    // the reused list now shares the parent's text; lists that shared its old buffer are unaffected
-                    // (split_into re-points `out` to the parent's buffer instead of swapping)
-                    if splitted || add_single {
-                        lists[o] = (out, text);
-                        group[o] = group[l]; alt_group[o] = None;
-                    } else {
-                        // nothing is written: the binding only clears `out`, which keeps its OWN input buffer
-                        // (split_into returns before assign_input) - it does not come to share the parent's
-                        lists[o].0.clear();
-                    }
+                    if wrote && !unwinds && group[o] != group[l] { run.bump("python-split-into-foreign-out"); if splitted { run.bump("python-split-units-into-foreign-out(assign_input)"); } }
+                    // written: the reused list now points to the parent's cell (it is re-pointed, the cell it pointed to is
+                    // untouched); nothing written: it is only cleared and keeps its own cell
+                    let keep_text = lists[o].1.clone();
+                    lists[o] = (out, if wrote { text } else { keep_text });
+                    if wrote { group[o] = group[l]; stale[o] = stale[l]; }
+                }
+                None => { if !unwinds { lists.push((out, text)); group.push(group[l]); stale.push(stale[l]); } }
+            }
+            if unwinds || stale[l] { expect.push(None); } else {
+                expect.push(Some(serde_json::json!({"ok": true, "mode": mode_str(create_mode), "ms": d, "n": n})));
+            }
+        } else if kind < 9 {
+            // ---- Dictionary.lookup(surface, out=): the cell of `out` is rewritten in place, also when the call fails ----
+            let q = if rng.chance(1, 12) { "あ".repeat(16384 + rng.below(20)) } else if rng.chance(2, 3) { rng.pick(&w.lex.rows).surface.clone() } else { gen_text(rng, w, 3) };
+            let outl = if !lists.is_empty() && rng.chance(1, 3) { Some(rng.below(lists.len())) } else { None };
+            calls.push(serde_json::json!({"op": "lookup", "query": q, "out": outl}));
+            if outl.is_some() { run.bump("python-lookup-with-out"); }
+            if q.len() > 49149 { run.bump("python-lookup:rejected"); }
+            let mut ml = match outl { Some(o) => std::mem::replace(&mut lists[o].0, MorphemeList::empty(dic)), None => MorphemeList::empty(dic) };
+            ml.clear();
+            let r = ml.lookup(&q, InfoSubset::all());
+            let ok = r.is_ok();
+            this_enc = Some(format!("L@{}@{}@{}@{}", outl.map_or("-".to_string(), |o| o.to_string()), q.len(), enc_ids(&node_ids(&ml)), ok as u8));
+            if q.len() < 2000 {
+                // the buffer `lookup` builds: no input-text plugin runs
+                let mut ib = sudachi::input_text::InputBuffer::new();
+                ib.reset().push_str(&q);
+                if ib.start_build().is_ok() && ib.build(dic.grammar()).is_ok() { tabs.push(enc_tabs(enc.len(), &ib.verif_tables())); }
+            }
+            let d = dump_list(&ml, &q);
+            let n = ml.len();
+            match outl {
+                Some(o) => {
+                    lists[o] = (ml, q.clone());
+                    for j in 0..lists.len() { if j != o && group[j] == group[o] { stale[j] = true; } }
                     stale[o] = false;
                 }
-                None => { lists.push((out, text)); group.push(group[l]); stale.push(false); alt_group.push(None); }
+                None => { if ok { lists.push((ml, q.clone())); group.push(next_group); next_group += 1; stale.push(false); } }
             }
-            expect.push(Some(serde_json::json!({"ok": true, "mode": mode_str(create_mode), "ms": d, "n": n})));
-        } else if kind < 9 {
-            let q = if rng.chance(2, 3) { rng.pick(&w.lex.rows).surface.clone() } else { gen_text(rng, w, 3) };
-            calls.push(serde_json::json!({"op": "lookup", "query": q}));
-            let mut ml = MorphemeList::empty(dic);
-            match ml.lookup(&q, InfoSubset::all()) {
-                Ok(_) => {
-                    let d = dump_list(&ml, &q);
-                    let n = ml.len();
-                    lists.push((ml, q.clone()));
-                    group.push(next_group); next_group += 1; stale.push(false); alt_group.push(None);
-                    expect.push(Some(serde_json::json!({"ok": true, "mode": mode_str(create_mode), "ms": d, "n": n})));
-                }
-                Err(_) => {
-                    lists.push((MorphemeList::empty(dic), q.clone()));
-                    group.push(next_group); next_group += 1; stale.push(false); alt_group.push(None);
-                    expect.push(Some(serde_json::json!({"err": true, "mode": mode_str(create_mode)})));
-                }
-            }
+            if ok { expect.push(Some(serde_json::json!({"ok": true, "mode": mode_str(create_mode), "ms": d, "n": n}))); }
+            else { expect.push(Some(serde_json::json!({"err": true, "mode": mode_str(create_mode)}))); }
         } else {
             calls.push(serde_json::json!({"op": "stale"}));
             expect.push(None);
+        }
+        }
+        if calls.len() > enc_of_call.len() {
+            match this_enc.take() {
+                Some(e) => {
+                    enc_of_call.push(Some(enc.len()));
+                    enc.push(e);
+                    // the library's own reads of every list and of every kept morpheme after this call
+                    snaps.push((group.clone(), stale.clone(), lists.iter().map(|l| lib_reads(&l.0)).collect(), kept_objs.iter().map(|(j, ix)| lib_read_one(&lists[*j].0, *ix)).collect()));
+                }
+                None => enc_of_call.push(None),
+            }
         }
     }
     let _ = kept;
@@ -439,6 +530,42 @@ fn py_session(run: &mut Run, idx: usize, rng: &mut Rng, w: &World) {
         run.fail_with_line(idx, &line, "c19:py:crash", &format!("interpreter did not survive the call sequence: status {:?}, {} of {} answers, stderr {}",
             outp.status.code(), got.len().saturating_sub(if done { 1 } else { 0 }), calls.len(), String::from_utf8_lossy(&outp.stderr).chars().rev().take(300).collect::<String>().chars().rev().collect::<String>()));
         return;
+    }
+    // ---- the session through the Lean model: sharing / staleness state and every read after every call ----
+    {
+        let payload = format!("rv={} mode={} calls={} kept={} tabs={}", crate::c10::impl_reset_variant(), mode_num(create_mode),
+            if enc.is_empty() { "-".to_string() } else { enc.join("/") }, if keeps.is_empty() { "-".to_string() } else { keeps.join(",") },
+            if tabs.is_empty() { "-".to_string() } else { tabs.join(";") });
+        let mut states: Vec<String> = vec![];
+        let mut read_fail: Option<String> = None;
+        for (k, e) in enc_of_call.iter().enumerate() {
+            let Some(e) = e else { continue };
+            let g = &got[k];
+            let (grp, stl, lib_lists, lib_kept) = &snaps[*e];
+            let exc = g.get("exc").and_then(|x| x.as_str()).or_else(|| g.get("err").and_then(|x| x.as_str()));
+            let ret = match exc { Some(c) => format!("exc:{}", c), None => format!("ok:{}", g["ret"]) };
+            let all: Vec<String> = g["all"].as_array().map(|a| a.iter().map(|x| x.as_str().unwrap_or("?").to_string()).collect()).unwrap_or_default();
+            let kept_py: Vec<String> = g["kept"].as_array().map(|a| a.iter().map(|x| x.as_str().unwrap_or("?").to_string()).collect()).unwrap_or_default();
+            // canonical cell numbers of the simulation (first list of a cell names it)
+            let mut firsts: Vec<usize> = vec![];
+            for gno in grp.iter() { if !firsts.contains(gno) { firsts.push(*gno); } }
+            let ls: Vec<String> = all.iter().enumerate().map(|(j, r)| {
+                let canon = grp.get(j).map_or("?".to_string(), |gno| firsts.iter().position(|x| x == gno).unwrap().to_string());
+                let flag = if r.starts_with("0[") { "-" } else if stl.get(j).copied().unwrap_or(false) { "s" } else { "f" };
+                format!("c{}.{}.{}", canon, flag, r)
+            }).collect();
+            states.push(format!("{};{};{};k={}", ret, g["mode"].as_str().unwrap_or("?"), ls.join(","), kept_py.join(",")));
+            // ORACLE: Python reads from every list (stale ones included) and every kept morpheme what the Rust library reads
+            if read_fail.is_none() && (&all != lib_lists || &kept_py != lib_kept) {
+                read_fail = Some(format!("after call {} {}: Python reads lists {:?} kept {:?}, the Rust library {:?} kept {:?}", k, calls[k].to_string().chars().take(200).collect::<String>(),
+                    all.iter().map(|x| x.chars().take(120).collect::<String>()).collect::<Vec<_>>(), kept_py, lib_lists.iter().map(|x| x.chars().take(120).collect::<String>()).collect::<Vec<_>>(), lib_kept));
+            }
+            for (j, r) in all.iter().enumerate() { if !r.starts_with("0[") && stl.get(j).copied().unwrap_or(false) { run.bump("python-stale-list-read"); if r.contains('!') { run.bump("python-stale-list-read-raises"); } } }
+            for r in kept_py.iter() { if r.contains('!') { run.bump("python-kept-morpheme-read-raises"); } }
+        }
+        run.bump_by("pysess-model-calls", enc.len() as u64);
+        run.case(idx, "pysess", &payload, &format!("ok {}", states.join("|")), enc.len() >= 3);
+        if let Some(wh) = read_fail { run.fail_with_line(idx, &line, "c19:py:reads", &wh); }
     }
     for (k, func, payload) in &glue {
         let g = &got[*k];
@@ -599,7 +726,7 @@ sequences) + call-sequence runs of the built extension (see extra.python).".into
             Ok(w) => w,
             Err(e) => { run.bump(&format!("world-error:{}", e.chars().take(50).collect::<String>())); continue; }
         };
-        if idx % 25 == 3 {
+        if idx % 15 == 3 {
             if std::path::Path::new(&format!("{}/sudachipy/sudachipy.so", py_pkg())).exists() {
                 py_session(run, idx, &mut rng, w);
             } else {
